@@ -41,7 +41,7 @@ fn immediate(rng: &mut Rng, h: &HistGen, k: &Knobs) -> String {
             g.rng.pick(&h.line_nums)
         }
     };
-    match g.rng.below(16) {
+    match g.rng.below(19) {
         0..=3 => print_stmt(&g.assignment()),
         4 => {
             let a = g.rng.pick(&["C", "V", "K", "C$", "YZ", "Z$"]);
@@ -62,6 +62,17 @@ fn immediate(rng: &mut Rng, h: &HistGen, k: &Knobs) -> String {
         12 => format!("FOR {} = 1 TO 2 : GOTO {}", g.rng.pick(NUM_VARS), ln(&mut g)),
         13 => "RESTORE".to_string(),
         14 => format!("NEXT {}", g.rng.pick(NUM_VARS)),
+        // refused for nesting deeper than the evaluator's cap (or just below it: accepted)
+        16 => {
+            let n = g.rng.pick(&[255usize, 256, 257, 300]);
+            format!("PRINT {}1{}", "(".repeat(n), ")".repeat(n))
+        }
+        17 => {
+            let n = g.rng.pick(&[255usize, 256, 257, 300]);
+            format!("{}PRINT 1", "IF 1 THEN ".repeat(n))
+        }
+        // fails inside a user function (if the program defined one; else an array read)
+        18 => format!("PRINT {}(1 / 0)", g.rng.pick(&["FNC", "FNJ", "FNW"])),
         _ => "RETURN".to_string(),
     }
 }
